@@ -517,16 +517,6 @@ class EventBus:
             if current_event is not None and current_event.event_id != event.event_id:
                 event.event_parent_id = current_event.event_id
 
-        # Track child events - if we're inside a handler, add this event to the handler's event_children list
-        # Only track if this is a NEW event (not forwarding an existing event)
-        current_handler_id = _current_handler_id_context.get()
-        if current_handler_id is not None and inside_handler_context.get():
-            current_event = _current_event_context.get()
-            if current_event is not None and current_handler_id in current_event.event_results:
-                # Only add as child if it's a different event (not forwarding the same event)
-                if event.event_id != current_event.event_id:
-                    current_event.event_results[current_handler_id].event_children.append(event)
-
         # Add this EventBus to the event_path if not already there
         if self.name not in event.event_path:
             # preserve identity of the original object instead of creating a new one, so that the original object remains awaitable to get the result
@@ -576,6 +566,16 @@ class EventBus:
                 raise  # could also block indefinitely until queue has space, but dont drop silently or delete events
         else:
             logger.warning(f'⚠️ {self}.dispatch() called but event_queue is None! Event not queued: {event.event_type}')
+
+        # Track child events (only once the event has actually been accepted) - if we're inside a handler, add this event to the handler's event_children list
+        # Only track if this is a NEW event (not forwarding an existing event)
+        current_handler_id = _current_handler_id_context.get()
+        if current_handler_id is not None and inside_handler_context.get():
+            current_event = _current_event_context.get()
+            if current_event is not None and current_handler_id in current_event.event_results:
+                # Only add as child if it's a different event (not forwarding the same event)
+                if event.event_id != current_event.event_id:
+                    current_event.event_results[current_handler_id].event_children.append(event)
 
         # Note: We do NOT pre-create EventResults here anymore.
         # EventResults are created only when handlers actually start executing.
